@@ -566,3 +566,39 @@ Theorem C07_shared_task_saves_at_every_resume :
   var_get 0 (c_st (c 200%nat)) = VInt 0.
 Proof. exact c07d_saved_value_follows_the_last_resume. Qed.
 Print Assumptions C07_shared_task_saves_at_every_resume.
+
+(* T3 for rtree0 *)
+Theorem C07_contexts_nest_lifo_rtree0 : forall P, pointwise P -> forall p, rtree0 p -> wnr [] p -> forall n,
+  let h := fst (create [] (FTask p) (st0 P)) in
+  let s1 := snd (create [] (FTask p) (st0 P)) in
+  no_unwind P n (start h s1) ->
+  exists l, layers (c_st (run P (S n) (start h s1))) = layers (c_st (run P n (start h s1))) ++ l \/
+            layers (c_st (run P n (start h s1))) = layers (c_st (run P (S n) (start h s1))) ++ l.
+Proof. exact contexts_nest_lifo_rtree0. Qed.
+Print Assumptions C07_contexts_nest_lifo_rtree0.
+
+Theorem C07_saved_values_rtree0 : forall P, pointwise P -> forall p, rtree0 p -> wnr [] p -> forall n,
+  let h := fst (create [] (FTask p) (st0 P)) in
+  let s1 := snd (create [] (FTask p) (st0 P)) in
+  no_unwind P n (start h s1) ->
+  match c_mode (run P n (start h s1)) with
+  | MUnwind _ | MStuck | MDone _ => True
+  | _ =>
+    let s := c_st (run P n (start h s1)) in
+    let init := fun x => var_get x s1 in
+    (forall x, var_get x s = apply_l init (layers s) x) /\
+    (forall pre t cid var v post, layers s = pre ++ (t, COverride cid var v) :: post ->
+       ci_old (ci_get (t, cid) s) = apply_l init pre var) /\
+    NoDup (map lkey (layers s))
+  end.
+Proof. exact saved_values_rtree0. Qed.
+Print Assumptions C07_saved_values_rtree0.
+
+Theorem C07_layer_owners_await_rtree0 : forall P p n t q, pointwise P -> rtree0 p ->
+  let h := fst (create [] (FTask p) (st0 P)) in
+  let s1 := snd (create [] (FTask p) (st0 P)) in
+  no_unwind P n (start h s1) -> c_mode (run P n (start h s1)) = MRun t q ->
+  let s := c_st (run P n (start h s1)) in
+  forall rest, tasks s = t :: rest -> forall u c, In (u, c) (lower s rest) -> reach s u t.
+Proof. exact layer_owners_await_rtree0. Qed.
+Print Assumptions C07_layer_owners_await_rtree0.
